@@ -300,6 +300,9 @@ def analyse(chk, repo, modules, label: str) -> int:
             if s.stable is True:
                 chk.ok("order-taint", site, desc + " - hash-stable elements, iteration order independent of PYTHONHASHSEED")
                 continue
+            if getattr(s, "partial", ""):
+                chk.violation("order-taint", site, f"{desc}: {s.partial}; sorted() is stable, so elements that are neither smaller nor greater than each other stay in the order the set yields them, which depends on their hashes (PYTHONHASHSEED)", key=f"{fi.module.name}:{fi.qualname}:sorted-partial:{norm(s.container)[:40]}")
+                continue
             fq = f"{fi.module.name}:{fi.qualname}"
             fq_outer = f"{fi.module.name}:{fi.qualname.split('.<locals>.')[0]}"  # a helper nested in a named function is part of that function
             ex = [e for e in exc if fq in e["functions"] or fq_outer in e["functions"]]
@@ -560,6 +563,90 @@ def borrowed_arrays(chk) -> None:
         chk.ok("borrowed-array-write", "package", f"{n_funcs} functions read; arrays kept per object: {sorted(attrs)}; no in-place numpy operation reaches one of them through an alias")
 
 
+def serialised_records(chk) -> None:
+    """A record that is written out attribute by attribute (orjson.dumps / json.dumps of a dataclass without __slots__ serialises what is
+    in its __dict__) must not grow instance state when it is read: a functools.cached_property stores its value in that __dict__ on first
+    access, a lazy `self._x = ...` in a method does the same - the bytes written for one and the same object then depend on which
+    question was asked before (call history), not on the input."""
+    repo = chk.repo
+    ty = Types(repo)
+    roots = []
+    for fi in repo.all_funcs():
+        ft = None
+        for n in ast.walk(fi.node):
+            if isinstance(n, ast.Call) and (astq.dotted(n.func) or "").split(".")[-1] in ("dumps", "dump") and (astq.dotted(n.func) or "").split(".")[0] in ("orjson", "json", "ujson", "simplejson") and n.args:
+                from sa.types import FuncTypes
+
+                ft = ft or FuncTypes(ty, fi)
+                t = ft.of(n.args[0])
+                roots.append((fi, n, t))
+    seen = {}
+    todo = []
+
+    def push(t, via):
+        if isinstance(t, tuple):
+            if t[0] == "cls":
+                if (t[1], t[2]) not in seen:
+                    seen[(t[1], t[2])] = via
+                    todo.append((t[1], t[2]))
+            elif t[0] == "tuple":
+                for x in t[1]:
+                    push(x, via)
+            else:
+                for x in t[1:]:
+                    push(x, via)
+
+    for fi, n, t in roots:
+        push(t, f"{norm(n)[:50]} in {fi.qualname}")
+    while todo:
+        m, c = todo.pop()
+        node = repo.modules[m].classes.get(c)
+        if node is None:
+            continue
+        for b in node.body:
+            if isinstance(b, ast.AnnAssign):
+                push(ty.ann(m, b.annotation), seen[(m, c)])
+        for base in node.bases:
+            push(ty._cls(m, ast.unparse(base).split(".")[-1].split("[")[0]), seen[(m, c)])
+    n_cls = 0
+    for (m, c), via in sorted(seen.items()):
+        node = repo.modules[m].classes.get(c)
+        if node is None:
+            continue
+        if any(isinstance(b, ast.Assign) and any(isinstance(t, ast.Name) and t.id == "__slots__" for t in b.targets) for b in node.body):
+            continue
+        if any(isinstance(d, ast.Call) and any(k.arg == "slots" and isinstance(k.value, ast.Constant) and k.value.value is True for k in d.keywords) for d in node.decorator_list):
+            continue
+        n_cls += 1
+        fields = {b.target.id for b in node.body if isinstance(b, ast.AnnAssign) and isinstance(b.target, ast.Name)}
+        for b in node.body:
+            if not isinstance(b, ast.FunctionDef):
+                continue
+            fi = repo.modules[m].funcs.get(f"{c}.{b.name}")
+            decs = fi.decorators if fi is not None else []
+            if "cached_property" in decs:
+                chk.violation("serialised-record-state", fi.site(b), f"`{c}.{b.name}` is a cached_property of a record that is written out attribute by attribute ({via}): the first read stores `{b.name}` in the object's __dict__, so the serialised text of the same object gains a field - the output depends on what was asked before, not on the input. Use a plain property (or exclude the cache from the record)", key=f"{m}:{c}.{b.name}:cached-on-serialised")
+                continue
+            if b.name in ("__init__", "__post_init__", "__setstate__"):
+                continue
+            for x in ast.walk(b):
+                tgt = None
+                if isinstance(x, (ast.Assign, ast.AugAssign, ast.AnnAssign)):
+                    for t in (x.targets if isinstance(x, ast.Assign) else [x.target]):
+                        if isinstance(t, ast.Attribute) and isinstance(t.value, ast.Name) and t.value.id == "self" and t.attr not in fields:
+                            tgt = t.attr
+                        if isinstance(t, ast.Subscript) and norm(t.value) == "self.__dict__":
+                            tgt = norm(t.slice)
+                elif isinstance(x, ast.Call) and norm(x.func) == "object.__setattr__" and len(x.args) >= 2 and norm(x.args[0]) == "self" and not (isinstance(x.args[1], ast.Constant) and x.args[1].value in fields):
+                    tgt = norm(x.args[1])
+                if tgt is not None and fi is not None:
+                    chk.violation("serialised-record-state", fi.site(x), f"`{c}.{b.name}` stores `{tgt}`, which is not a declared field, on a record that is written out attribute by attribute ({via}): the serialised text of the object changes after this call", key=f"{m}:{c}.{b.name}:lazy-attr:{tgt}")
+    if roots:
+        chk.ok("serialised-record-state", "package", f"{len(roots)} serialisation calls (orjson / json dumps); {n_cls} record classes reachable from what they write: none has a cached_property or stores an undeclared attribute outside its constructor")
+    else:
+        chk.ok("serialised-record-state", "package", "no orjson / json dumps call of a record in the package")
+
+
 def run(chk) -> None:
     chk.explanation = (
         "Iteration-order taint analysis over every function of the package: light type inference (annotations, constructors, adds, "
@@ -576,7 +663,7 @@ def run(chk) -> None:
     )
     chk.trusted = ["CPython: set iteration order is a function of the hashes and the insertion history", "scipy/pulp/pandas/mmcif internals are deterministic", "dict and OrderedSet preserve insertion order"]
     chk.assumptions = ["int/float/tuple-of-int hashes do not depend on PYTHONHASHSEED"]
-    chk.robust |= {"order-taint", "nondeterministic-value", "receiver-write", "cache-introspection", "shared-state", "query-write", "run-dependent-name", "memo-external-state", "borrowed-array-write"}
+    chk.robust |= {"order-taint", "nondeterministic-value", "receiver-write", "cache-introspection", "shared-state", "query-write", "run-dependent-name", "memo-external-state", "borrowed-array-write", "serialised-record-state"}
     n = analyse(chk, chk.repo, None, "package")
     # repeated calls: no query changes the object it is asked on, none looks at the cache, no module-level container is consumed
     from checks import c12
@@ -587,6 +674,10 @@ def run(chk) -> None:
     run_values(chk)
     memo_external(chk)
     borrowed_arrays(chk)
+    try:
+        serialised_records(chk)
+    except Exception as ex:
+        chk.error("serialised-record-state", "package", f"analysis failed: {type(ex).__name__}: {str(ex)[:120]}")
     if n < 8:
         chk.error("order-taint", "-", f"only {n} set-typed iteration sites recognised (9 confirmed on the pinned tree): the type inference lost track of the sets")
 
